@@ -12,6 +12,7 @@ func init() {
 			"Client part (sdk/go/keepclient): observed arrival order at fake services of a read that misses everywhere (Get/Ask, 404, Retries 0) and of a write refused everywhere (PutB, wanted 1, 403), " +
 			"with 0-3 +K@ hints (5-character cluster, known gateway, unknown gateway) mixed with other hints; repeated with the services listed in reverse order, after removing/adding one service, and a write of k replicas followed by a read. " +
 			"Balancer part (services/keep-balance): servers that the real balanceBlock sends Pulls to (one replica on the last server, desired k=1..n-1) and does not send Trashes to (old replica everywhere, desired k), also after a membership change and with the services inserted in another order. " +
+			"Stream concurrent (same package): the REAL concurrent path - a Balancer whose BlockStateMap holds 1200-3000 blocks (one replica on the last server, or an old replica everywhere; desired k 1-4) is run through ComputeChangeSets with GOMAXPROCS set to 4-16 in the harness, every service's ChangeSet is read back and the Pull/Trash targets of every block are judged against the reference top-k and the client's observed probe order. " +
 			"Reference = services by descending MD5hex(hash + last 15 characters of the 27-character uuid) computed in the harness (validated against the 4 published probe-order vectors); for other uuid lengths only permutation / determinism / stability / client-vs-balancer agreement are judged; equal weights accept either order. " +
 			"non-trivial = more than one service or at least one hint; distinct = distinct (size class of the set, uuid class, ties, read-only present, load mode, read call, hint kinds, change kind | balancer: mounts, device ids)",
 		Assume: []string{
